@@ -5,7 +5,7 @@ import itertools, random, json
 from ..harness import coq, impl, scn, gen, obs as O, pyeval
 
 pid = 'C07'
-gen_modules = ['tr_state', 'tr_validators', 'tr_has_patcher', 'tr_contracts', 'tr_decorators', 'tr_pin_contracts']
+gen_modules = ['tr_state', 'tr_validators', 'tr_has_patcher', 'tr_contracts', 'tr_decorators', 'tr_pin_contracts', 'tr_pin_invariant']
 model_targets = ['Sem/ScnSwitch.v', 'Sem/Scenario.v']
 hand_modelled = []
 OPS = ['enable', 'disable', 'reset', 'perm']
@@ -232,12 +232,48 @@ def check_disabled_inv():
         r["method"] = type(e).__name__
     deal.enable()
     return r
+
+def check_decorated_while_disabled():
+    # whatever the switch position at decoration time (short of permanent removal), the last effective switch decides at call time
+    out = {}
+    deal.disable()
+    @deal.inv(lambda obj: obj.x > 0)
+    class A:
+        def __init__(self): self.x = 1
+        def bad(self): self.x = -5; return "ran"
+    @deal.pre(lambda x: x > 0)
+    def f(x): return x
+    @deal.post(lambda r: r > 0)
+    def g(x): return x
+    @deal.has()
+    def h(): print("x"); return 1
+    a = A()
+    def raised(fn, *args):
+        try:
+            fn(*args); return None
+        except BaseException as e:
+            return type(e).__name__
+    out["disabled_inv_assign_inert"] = raised(setattr, a, "x", -1) is None
+    out["disabled_pre_inert"] = raised(f, -1) is None
+    deal.enable()
+    a.__dict__["x"] = 1
+    out["enabled_inv_assign_raises"] = raised(setattr, a, "x", -1) == "InvContractError"
+    a.__dict__["x"] = 1
+    out["enabled_inv_method_raises"] = raised(a.bad) == "InvContractError"
+    out["enabled_pre_raises"] = raised(f, -1) == "PreContractError"
+    out["enabled_post_raises"] = raised(g, -1) == "PostContractError"
+    out["enabled_has_raises"] = raised(h) == "SilentContractError"
+    deal.disable()
+    a.__dict__["x"] = 1
+    out["disabled_again_inert"] = raised(setattr, a, "x", -1) is None and raised(f, -1) is None
+    deal.enable()
+    return out
 '''
 
 
 def removal_part(ctx, fr):
-    for name in ('check', 'check_disabled_inv'):
-        res = impl.run_impl('pyexec.py', {'src': REMOVAL_SRC, 'calls': [[name, []]]})[0]
+    for name, optimise in (('check', False), ('check_disabled_inv', False), ('check_decorated_while_disabled', False), ('check_decorated_while_disabled', True)):
+        res = impl.run_impl('pyexec.py', {'src': REMOVAL_SRC, 'calls': [[name, []]]}, optimise=optimise)[0]
         fr.evaluations += 1; fr.add_nontrivial({'removal': name})
         bad = [k for k, v in (res.items() if isinstance(res, dict) else [('error', res)]) if v is not True]
         if bad:
